@@ -237,7 +237,46 @@ fn canaries() {
     if emit(&m, &mut rng) != "tiny\t2\t0\ta\tb\nc\tA\t\n\tc\tx\\ny\n" { bad("emitter does not produce the documented format"); }
 }
 
+/// cases of the Miri slice the thorough tier asks for (measured: see NOTES.md)
+const MIRI_CASES: usize = 60;
+
+/// Write-only probe with lone surrogates (no text format can carry them, so nothing is judged but unexpected panics and the
+/// output being UTF-8): `write_vec` sorts by the raw names and prints them through duke's `Display`, which returns `fmt::Error`
+/// for a name that is not UTF-8 - `io::Write::write_fmt` turns that into the panic "a formatting trait implementation returned
+/// an error when the underlying stream did not". That panic is outside the judged domain (counted, see NOTES.md).
+fn surrogate_write_probe<const N: usize>(rng: &mut Rng, rep: &mut Report, cfg: &GenCfg) {
+    // up to 6 draws until a set carries the marker (U+FFFD in the model = lone surrogate in the tree)
+    let mut m = gen::gen_maps(rng, &cfg.clone().with_n(N));
+    for _ in 0..5 { if m.render().contains('\u{fffd}') { break; } m = gen::gen_maps(rng, &cfg.clone().with_n(N)); }
+    rep.eval();
+    let q = maps::to_quill::<N, ()>(&m, &mut Ins::Shuffle(&mut rng.fork())).expect("generated set is expressible");
+    match guard(|| tiny_v2::write_vec(&q)) {
+        Err(p) if p.message.contains("formatting trait implementation returned an error") => rep.count("miri.surrogate_write.panics_because_Display_refuses_non_UTF-8 (not judged)"),
+        Err(p) => rep.violation(format!("C03 panic {}", p.site()), json!({"call": "write_vec (names with lone surrogates)", "panic": p.message, "input": m.render()})),
+        Ok(Err(_)) => rep.count("miri.surrogate_write.refused (not judged)"),
+        Ok(Ok(t)) => { if std::str::from_utf8(&t).is_err() { rep.violation("C03 write: output is not UTF-8", json!({"input": m.render()})); } rep.count("miri.surrogate_sets_written"); }
+    }
+}
+
+/// `c03 --miri-slice <seed> <cases> <max seconds>`: single-threaded, no files. The ordinary cases (write from 4 insertion orders,
+/// read back - every third text through the short-read reader -, round trip, fixed point, key invariant; reader on the harness'
+/// own emitter; hostile comments) on small sets in which a third of the simple names are hostile (NUL, boundary / supplementary
+/// code points, BOM, descriptor letters, names of 40..1300 bytes); every sixth case writes a set with lone surrogates.
+fn miri_slice(seed: u64, cases: usize, max_s: u64) -> i32 {
+    let main_cfg = maps::slice::small(GenCfg { comments: CommentClass::Rich, empty_comments: true, ..GenCfg::default() });
+    let loose_cfg = GenCfg { unique_per_namespace: false, absent: (1, 2), ..main_cfg.clone() };
+    let hostile_cfg = maps::slice::small(GenCfg { comments: CommentClass::Hostile, comment_chance: (1, 2), ..GenCfg::default() });
+    maps::slice::run("C03", seed, cases, max_s, 6, |rng, rep, i, sur| {
+        if sur { return match i % 2 { 0 => surrogate_write_probe::<2>(rng, rep, &main_cfg), _ => surrogate_write_probe::<3>(rng, rep, &main_cfg) }; }
+        match i % 6 {
+            0 => case::<2>(rng, rep, &main_cfg, false), 1 => case::<3>(rng, rep, &loose_cfg, false), 2 => reader_case::<3>(rng, rep, &main_cfg),
+            3 => case::<4>(rng, rep, &main_cfg, false), _ => case::<2>(rng, rep, &hostile_cfg, true),
+        }
+    })
+}
+
 fn main() {
+    if let Some((seed, n, max_s)) = common::miri::slice_args() { std::process::exit(miri_slice(seed, n, max_s)); }
     let mut ctx = Ctx::from_args("C03", 40, 480);
     let replay = load_replay(&mut ctx);
     canaries();
@@ -271,5 +310,12 @@ fn main() {
         }
     }
     if ctx.replay.is_none() { meta.oblige("sets with blank-only / blank-containing non-source names", rep.get("sets.with_blank_names") >= 50); }
+    if ctx.replay.is_none() {
+        if ctx.tier == Tier::Thorough {
+            let r = common::miri::run_slice(&ctx, "c03", env!("CARGO_MANIFEST_DIR"), MIRI_CASES, 170, 285);
+            if let Some(line) = r.ub { rep.cur = ("miri".into(), 0); rep.violation(format!("miri: {line}"), json!({"how": format!("cargo +nightly miri run --offline -p c03 -- --miri-slice <seed> {MIRI_CASES} 170"), "seed": ctx.seed as i64, "status": r.status})); }
+            meta.extra.insert("miri_slice".into(), json!(r.status));
+        } else { meta.extra.insert("miri_slice".into(), json!("not run in the quick tier")); }
+    }
     std::process::exit(finish(&ctx, rep, meta));
 }
